@@ -139,7 +139,30 @@ def publicize_fields(frag, stats):
     ob = None
     for i in range(kw[0], len(frag)):
         if frag[i].s == "{": ob = i; break
-        if frag[i].s in ("(", ";"): break
+        if frag[i].s == "(":
+            # tuple struct: every field gets `pub`
+            cb = m[i]
+            ins = []
+            k = i + 1
+            start = True
+            while k < cb:
+                t = frag[k]
+                if start and t.s != "pub": ins.append(k)
+                start = False
+                if t.k == "o": k = m[k] + 1; continue
+                if t.s == ",": start = True
+                if t.s == "<":
+                    depth = 1; k += 1
+                    while k < cb and depth:
+                        if frag[k].s == "<": depth += 1
+                        elif frag[k].s == ">": depth -= 1
+                        k += 1
+                    continue
+                k += 1
+            for k in reversed(ins):
+                frag[k:k] = T("pub"); stats["R8.pub_field"] = stats.get("R8.pub_field", 0) + 1
+            return frag
+        if frag[i].s == ";": break
     if ob is None: return frag
     cb = m[ob]
     ins = []
